@@ -7,6 +7,6 @@ git -C /repo apply "$PATCH" 2>/dev/null || { git -C /repo apply --3way "$PATCH" 
 if grep -rq "^<<<<<<< " /repo/store /repo/memcache /repo/gobeansdb 2>/dev/null; then git -C /repo reset -q --hard HEAD; echo "patch conflicts"; exit 3; fi
 cd /verif && ./check $P --tier $TIER > /tmp/seedcheck_$P.log 2>&1; RC=$?
 git -C /repo checkout -- . ; git -C /repo clean -fdq
-echo "check $P rc=$RC"; grep -E "VIOLATION|KNOWN-FINDING|MACHINERY|^OK" /tmp/seedcheck_$P.log | head -5
+echo "check $P rc=$RC"; grep -E "VIOLATION|MACHINERY|^OK" /tmp/seedcheck_$P.log | head -5; grep -c "KNOWN-FINDING" /tmp/seedcheck_$P.log | sed "s/^/known-finding lines: /"
 git -C /verif checkout -- evidence 2>/dev/null
 exit 0
